@@ -116,7 +116,7 @@ class C14(Prop):
         n = 160 if tier == 'quick' else 2500
         out = []
         for i in range(n):
-            c = sl.gen_session(rng, tier)
+            c = sl.gen_timed_session(rng, tier) if rng.random() < 0.15 else sl.gen_session(rng, tier)
             if rng.random() < 0.5 and c['cfg'].get('burn') is None:
                 closes = [t for t, k in sl.event_times(c['cfg']['start'], c['cfg']['end']) if k == 'market_close']
                 if closes:
